@@ -64,5 +64,8 @@ CARRIED = {
     "C08": [("C16", "update_bookkeeping", None), ("C16", "structure", lambda cfg: cfg.get("op") == "dual")],
     # averaging at the points divides by mesh.cells_per_point (C16 bookkeeping)
     "C19": [("C16", "update_bookkeeping", None)],
+    # the free unknowns of a modal analysis are those of dof.partition over the job's boundaries: the selection a Boundary
+    # makes (all fx / fy / fz / mode / skip / mask options) is the C08 `boundary` contract
+    "C18": [("C08", "boundary", None)],
     "C09": [("C15", "Job.evaluate", None), ("C15", "Step.generate", None), ("C08", "loadcase", None)],
 }
